@@ -933,6 +933,196 @@ def parse_spine_contract():
     return c_
 
 
+# ----------------------------------------------- construction site: xlsx row trimming --
+XLSX = "sharepoint2text/parsing/extractors/ms_modern/xlsx_extractor.py"
+CELL_NE = fun("xlsx_cell_non_empty", ext_sort("XCell"), B)      # _is_cell_non_empty(value) (assumed pure; its definition is C02's)
+
+
+def any_true(seq: VSeq):
+    """any(seq) for a sequence of booleans: some element is true (one shape for the code's `any(...)` and for the spec)"""
+    j = z3.Int("j!any")
+    return z3.Exists([j], z3.And(j >= 0, j < seq.length, seq.elem(j).t))
+
+
+def p_rows():
+    def mk(ex, st, name):
+        n = z3.Int(f"{name}.len")
+        rl = z3.Function(f"{name}.rowlen", I, I)
+        cell = z3.Function(f"{name}.cell", I, I, ext_sort("XCell"))
+
+        def row(k):
+            return VSeq(z3.If(rl(k) < 0, 0, rl(k)), lambda j, k=k: VExt("XCell", cell(k, j)), ("obj", "XCell"))
+        return [(n >= 0, VSeq(n, row, "row"))]
+    return Maker(mk, desc="list of rows of cell values (symbolic sizes)")
+
+
+def row_non_empty(row: VSeq):
+    return any_true(VSeq(row.length, lambda j: VBool(CELL_NE(row.elem(j).t)), "bool"))
+
+
+def last_data_row_contract():
+    """_find_last_data_row: the 1-based number of the LAST row holding a non-empty cell, 0 when there is none -- every row that
+    carries data survives the trimming (a trimmed data row is cell text in no unit)."""
+    def rows_of(c):
+        return c.args["rows"]
+
+    def ens(c):
+        rows = rows_of(c)
+        n = rows.length
+        r = ops.int_term(c.result)
+        k = z3.Int("k!ldr")
+        later_empty = z3.ForAll([k], z3.Implies(z3.And(k >= r, k < n), z3.Not(row_non_empty(rows.elem(k)))))
+        return z3.And(r >= 0, r <= n, later_empty, z3.Implies(r > 0, row_non_empty(rows.elem(r - 1))))
+
+    def inv(lc):
+        rows = lc.entry.lookup("rows")
+        n = rows.length
+        k = z3.Int("k!ldi")
+        return Conj([("rows-behind-are-empty", z3.ForAll([k], z3.Implies(z3.And(k > n - 1 - lc.i, k < n), z3.Not(row_non_empty(rows.elem(k))))))])
+
+    def inv_forward(names):
+        # the same traversal written front to back: the candidate kept in a local that is returned afterwards is the last row
+        # with data among the rows visited so far (stated for every returned integer local; a local for which it does not
+        # hold makes the proof fail behind the cut = `unknown`, never a violation)
+        def f(lc):
+            rows = lc.entry.lookup("rows")
+            k = z3.Int("k!ldf")
+            parts = []
+            for v in names:
+                cur = lc.st.lookup(v)
+                if isinstance(cur, VInt) and not isinstance(cur, VBool):
+                    t = ops.int_term(cur)
+                    parts.append(z3.And(t >= 0, t <= lc.i, z3.Implies(t > 0, row_non_empty(rows.elem(t - 1))),
+                                        z3.ForAll([k], z3.Implies(z3.And(k >= t, k < lc.i), z3.Not(row_non_empty(rows.elem(k)))))))
+            return Conj([("rows-behind-are-empty", z3.And(*parts) if parts else z3.BoolVal(True))])
+        return f
+
+    spec = LoopSpec(inv=inv, label="rows")
+    fwd = {}
+    c_ = FnContract(
+        target=f"{XLSX}::_find_last_data_row",
+        params=[("rows", p_rows())],
+        ensures=[("result-is-the-last-row-with-data-or-0", ens)],
+        raises=[],
+        loops={},
+        note="trailing empty rows only are trimmed",
+    )
+
+    def finder(ex, fnode, node):
+        if not isinstance(node, ast.For):
+            return None
+        if iterates(fnode, node.iter, ("name", "rows")):
+            if id(fnode) not in fwd:
+                fwd[id(fnode)] = LoopSpec(inv=inv_forward(returned_names(fnode)), label="rows")
+            return with_counters(fwd[id(fnode)], node)
+        if isinstance(node.iter, ast.Call) and ast.unparse(node.iter.func) in ("range", "reversed"):
+            return with_counters(spec, node)
+        return None
+    c_.loop_finder = finder
+    c_.loop_obligations = [("inv-init", "rows.rows-behind-are-empty"), ("inv-preserve", "rows.rows-behind-are-empty")]
+    return c_
+
+
+def returned_names(fnode):
+    """locals whose value is returned by `return <name>`"""
+    return sorted({n.value.id for n in ast.walk(fnode) if isinstance(n, ast.Return) and isinstance(n.value, ast.Name)})
+
+
+def last_data_column_contract():
+    """_find_last_data_column: no cell right of the returned (1-based) column carries data, in any row -- the column trimming
+    removes empty cells only.  Outer loop (rows, front to back): the candidate kept in the returned local covers the rows
+    visited; inner loop (cells of one row, back to front, left by `break` at the first cell with data): the cells behind the
+    cursor are empty and the candidate is untouched."""
+    def cells_right_empty(rows, upto, col):
+        k, j = z3.Int("k!ldc"), z3.Int("j!ldc")
+        return z3.ForAll([k, j], z3.Implies(z3.And(k >= 0, k < upto, j >= col, j >= 0, j < rows.elem(k).length),
+                                            z3.Not(CELL_NE(rows.elem(k).elem(j).t))))
+
+    def ens(c):
+        rows = c.args["rows"]
+        r = ops.int_term(c.result)
+        return z3.And(r >= 0, cells_right_empty(rows, rows.length, r))
+
+    def ints(lc, names):
+        out = []
+        for v in names:
+            cur, ent = lc.st.lookup(v), lc.entry.lookup(v)
+            if isinstance(cur, VInt) and not isinstance(cur, VBool):
+                out.append((v, ops.int_term(cur), ops.int_term(ent) if isinstance(ent, VInt) else None))
+        return out
+
+    def inv_rows(names):
+        def f(lc):
+            rows = lc.entry.lookup("rows")
+            parts = [z3.And(t >= 0, cells_right_empty(rows, lc.i, t)) for _v, t, _e in ints(lc, names)]
+            return Conj([("cells-right-of-the-candidate-are-empty", z3.And(*parts) if parts else z3.BoolVal(True))])
+        return f
+
+    def inv_cells(names, row_name):
+        def f(lc):
+            row = lc.entry.lookup(row_name)
+            if not isinstance(row, VSeq):
+                return Conj([("cells-behind-are-empty", z3.BoolVal(False))])
+            j = z3.Int("j!ldk")
+            n = row.length
+            behind = z3.ForAll([j], z3.Implies(z3.And(j > n - 1 - lc.i, j >= 0, j < n), z3.Not(CELL_NE(row.elem(j).t))))
+            frame = [t == e for _v, t, e in ints(lc, names) if e is not None]
+            return Conj([("cells-behind-are-empty", z3.And(behind, *frame))])
+        return f
+
+    def inv_cells_forward(names, row_name):
+        # the cells of one row walked front to back: the candidate only grows, and no visited cell at or right of it has data
+        def f(lc):
+            row = lc.entry.lookup(row_name)
+            if not isinstance(row, VSeq):
+                return Conj([("cells-behind-are-empty", z3.BoolVal(False))])
+            j = z3.Int("j!ldw")
+            parts = [z3.And(t >= e, z3.ForAll([j], z3.Implies(z3.And(j >= t, j >= 0, j < lc.i, j < row.length), z3.Not(CELL_NE(row.elem(j).t)))))
+                     for _v, t, e in ints(lc, names) if e is not None]
+            return Conj([("cells-behind-are-empty", z3.And(*parts) if parts else z3.BoolVal(True))])
+        return f
+
+    c_ = FnContract(
+        target=f"{XLSX}::_find_last_data_column",
+        params=[("rows", p_rows())],
+        ensures=[("no-data-right-of-the-returned-column", ens)],
+        raises=[],
+        loops={},
+        note="empty trailing columns only are trimmed",
+    )
+    cache = {}
+
+    def finder(ex, fnode, node):
+        if not isinstance(node, ast.For):
+            return None
+        if id(node) in cache:
+            return cache[id(node)]
+        names = returned_names(fnode)
+        sp = None
+        if iterates(fnode, node.iter, ("name", "rows")):
+            sp = with_counters(LoopSpec(inv=inv_rows(names), label="rows"), node)
+        elif [n for n in ast.walk(node.iter) if isinstance(n, ast.Name) and n.id != "rows" and iterates(fnode, node.iter, ("name", n.id))]:
+            row_name = [n.id for n in ast.walk(node.iter) if isinstance(n, ast.Name) and n.id != "rows" and iterates(fnode, node.iter, ("name", n.id))][0]
+            sp = with_counters(LoopSpec(inv=inv_cells_forward(names, row_name), label="cells"), node)
+        elif isinstance(node.iter, ast.Call) and ast.unparse(node.iter.func) == "range":
+            # the cells of ONE row, walked by index from the back: the row is the sequence whose len() bounds the range
+            lens = [a.args[0].id for a in ast.walk(node.iter) if isinstance(a, ast.Call) and isinstance(a.func, ast.Name) and a.func.id == "len"
+                    and len(a.args) == 1 and isinstance(a.args[0], ast.Name)]
+            if len(lens) == 1:
+                sp = with_counters(LoopSpec(inv=inv_cells(names, lens[0]), label="cells"), node)
+        cache[id(node)] = sp
+        return sp
+    c_.loop_finder = finder
+    c_.loop_obligations = [(k_, lab) for k_ in ("inv-init", "inv-preserve")
+                           for lab in ("rows.cells-right-of-the-candidate-are-empty", "cells.cells-behind-are-empty")]
+    return c_
+
+
+def cell_non_empty_assumed():
+    return FnContract(target=f"{XLSX}::_is_cell_non_empty", params=[("val", p_ext("XCell"))],
+                      returns=lambda c: VBool(CELL_NE(c.args["val"].t)), assumed=True)
+
+
 # ------------------------------------------------------------ opaque members --
 def install_opaque():
     OP = X.UnitsExecutor.OPAQUE
@@ -1006,6 +1196,21 @@ class C03Executor(ET.ETreeMixin, X.UnitsExecutor):
                 if len(pr) == 1 and pr[0][0] is st:
                     return AUnit(pr[0][1], pr[0][2])
         return v
+
+    def b_range(self, st, args, kwargs, node):
+        # range(a, b, -1) with symbolic bounds: a, a-1, ..., b+1
+        if len(args) == 3 and isinstance(args[2], VInt) and args[2].const() == -1 and (args[0].const() is None or args[1].const() is None):
+            a, b = ops.int_term(args[0]), ops.int_term(args[1])
+            return [(st, VSeq(z3.If(a - b > 0, a - b, 0), lambda k, a=a: VInt(a - k), "int"))]
+        return super().b_range(st, args, kwargs, node)
+
+    def b_any(self, st, args, kwargs, node):
+        v = args[0]
+        if isinstance(v, VRef) and st.obj(v.ref).kind == "alist":
+            v = st.obj(v.ref).data
+        if isinstance(v, VSeq) and isinstance(v.elem(K), VBool):
+            return [(st, VBool(any_true(v)))]
+        return super().b_any(st, args, kwargs, node)
 
     def b_map(self, st, args, kwargs, node):
         """map(f, xs) over a symbolic sequence == (f(x) for x in xs) when f is pure and single-valued there"""
@@ -1296,11 +1501,14 @@ def contracts(reg):
     out.append(flush_page_contract())
     ET.install(reg)
     out.append(parse_spine_contract())
+    out.append(last_data_row_contract())
+    out.append(last_data_column_contract())
+    out.append(cell_non_empty_assumed())
     # e-mail glue shared with C16 (message boundaries and the body text that becomes the unit are part of both properties): the
     # mailbox splitter and the .eml body assembly are verified here under C16's contracts (with C16's
     # executor, see EXECUTOR); C16's remaining contracts are only registered, so that calls inside these functions use them
     from contracts import C16
-    shared = ("::_split_mbox_messages", "::_read_eml_format")      # (get_body_content's first-part rule is C16's claim, not C03's: see the
+    shared = ("::_split_mbox_messages", "::_read_eml_format", "::read_mbox_format_mail")      # (get_body_content's first-part rule is C16's claim, not C03's: see the
     #                                                                 recorded finding C03-mbox-later-inline-parts-dropped)
     for c16c in C16.contracts(reg):
         if c16c.target.endswith(shared):
